@@ -134,3 +134,19 @@ package js_parser
 //@   opt auto-counters 1
 //@   prop C16
 
+
+// ----------------------------------------------------------------------------------------------
+// C03: partial evaluation of `switch (literal)`. A case may be skipped (and the default or a later case chosen)
+// only if the compile-time comparison KNOWS the case does not match: CheckEqualityIfNoSideEffects must have
+// answered ok && !equal for it. "Cannot tell" is not "not equal".
+//@ spec func knownUnequal(test js_ast.Expr, c js_ast.Case) bool =
+//@     proj(1, js_ast.CheckEqualityIfNoSideEffects(test.Data, c.ValueOrNil.Data, js_ast.StrictEquality)) &&
+//@     !proj(0, js_ast.CheckEqualityIfNoSideEffects(test.Data, c.ValueOrNil.Data, js_ast.StrictEquality))
+//@ func (*parser).minifySwitchStmt
+//@   arith int
+//@   prop C03
+//@   opt scenario switch_undecidable_case
+//@   opt assume-heappure-stable it only rearranges s.Cases and case bodies, CheckEqualityIfNoSideEffects reads expression nodes
+//@   loop 2 invariant forall k int :: 0 <= k && k <= rangeindex && s.Cases[k].ValueOrNil.Data != nil ==> knownUnequal(s.Test, s.Cases[k])
+//@   loop 2 exit skipped-cases-are-known-unequal: takenIndex != -1 || defaultIndex != -1 ==>
+//@       (forall k int :: 0 <= k && k < (takenIndex == -1 ? len(s.Cases) : takenIndex) && s.Cases[k].ValueOrNil.Data != nil ==> knownUnequal(s.Test, s.Cases[k]))
